@@ -25,7 +25,9 @@ type H struct{}
 func (H) ID() string { return "C16" }
 
 // Faults implements core.Harness.
-func (H) Faults() core.FaultMenu { return core.FaultMenu{Sequential: true, MaxSteps: 100000} }
+func (H) Faults() core.FaultMenu {
+	return core.FaultMenu{Sequential: true, MapOrder: true, MaxSteps: 100000}
+}
 
 // Decode implements core.Harness.
 func (H) Decode(b []byte) (any, error) {
@@ -51,6 +53,12 @@ func (H) Generate(r *simrt.Rand, tier string) any {
 		n = 1 + r.Intn(3000)
 	}
 	bias := 30 + r.Intn(40) // share of pushes: drain-and-refill shows up with low shares
+	if r.Intn(12) == 0 {
+		// depth is a knob too: growth policies and block sizes only show with
+		// hundreds of values inside
+		n = 300 + r.Intn(1500)
+		bias = 60 + r.Intn(25)
+	}
 	b := make([]byte, n)
 	for i := range b {
 		x := r.Intn(100)
